@@ -147,6 +147,7 @@ def setup(c):
     m = smod('eigenfre')
     reach.watch(c, {'eigen': m.eigen, '_get_signal_space': m._get_signal_space})
     install.contract('spectrum.eigenfre', 'eigen', post_eigen)
+    reach.cover(c, {'eigen': install.original('spectrum.eigenfre', 'eigen'), '_get_signal_space': m._get_signal_space})
 
 
 def local_maxima(p):
